@@ -31,7 +31,7 @@ func runC03(c *Ctx) {
 	}
 	// 2. every (file type, message type) arm: each known message twice plus
 	// unknown ones, in seeded interleavings
-	rounds := c.pick(2, 8)
+	rounds := c.pick(4, 12)
 	for _, st := range sch.Types {
 		for r := 0; r < rounds; r++ {
 			arch := byte(rng.Intn(2))
